@@ -245,7 +245,15 @@ class TopoModel(Model):
                 if i.type == InterfaceType.DedicatedPort:
                     for s in i.interface_list:
                         out.append((nn, s))
-        return sorted(out, key=lambda x: (x[0], x[1].name))
+        out.sort(key=lambda x: (x[0], x[1].name))
+        # the driver addresses ports by (node, name): of several same-named ports of one node (legal when they belong to
+        # different services) only the first-listed is ever addressed; the others just exist
+        seen, first = set(), []
+        for a, i in out:
+            if (a, i.name) not in seen:
+                seen.add((a, i.name))
+                first.append((a, i))
+        return first
 
     def port(self, nn, iname):
         for a, i in self.ports():
